@@ -29,12 +29,83 @@ RULES = [
     ("R-abs", "let mut assorted_iter = assorted_bucket . iter ( ) . peekable ( ) ; $rest }", "vx_abs_assorted ( buckets , self_node_id ) }", "ABSTRACTION: the tail of precompute_assorted_nodes (peekable + enumerate over the last bucket) replaced by an opaque stand-in; only the early return for a full-depth table is verified"),
     ("R-clpat", ". filter ( | ( $pat ) | $b )", ". filter ( | p | let ( $pat ) = p ; $b )", "closure pattern parameter -> named parameter + leading let (Verus needs a named parameter to state the closure's ensures)"),
     ("R-clpat", ". map ( | ( $pat ) | $b )", ". map ( | p | let ( $pat ) = p ; $b )", "closure pattern parameter -> named parameter + leading let"),
+    ("R-ordmax", "NODE_TIMEOUT . max ( $b )", "vx_duration_max ( NODE_TIMEOUT , $b )", "Ord::max is a provided trait method (Verus accepts no assume_specification for it): stand-in returning one of its arguments"),
+    ("R-forvec", "for node in nodes {", "let mut vx_i : usize = 0 ; while vx_i < nodes . len ( ) { let node = nodes [ vx_i ] ; vx_i += 1 ;", "for over a Vec of Copy items -> indexed while loop with the same element sequence (Verus for-loops do not support `continue`)"),
+    ("R-pin", "pin ! ( $e )", "$e", "pin! dropped: under the sequential reading (R-deasync) the future has run to completion where it is created"),
+    ("R-pending", "std :: future :: pending :: < ( ) > ( )", "vx_pending ( )", "a future that never resolves -> stand-in that never returns (postcondition false)"),
+    ("R-chain", "router_addresses . iter ( ) . chain ( self . starting_nodes . iter ( ) )", "vx_chain ( router_addresses , & self . starting_nodes )", "HashSet::iter + Iterator::chain -> eager stand-in (trusted: every element of the first set once, then every element of the second set once)"),
+    ("R-chain", "router_addresses . iter ( ) . chain ( self . starting_nodes . difference ( router_addresses ) )", "vx_chain_difference ( router_addresses , & self . starting_nodes )", "HashSet::iter + HashSet::difference + Iterator::chain -> eager stand-in (trusted: every element of the first set once, then every element of the second set that is not in the first, once)"),
     ("R-inline", "split_bucket . iter ( )", "split_bucket . nodes . iter ( )", "one-expression accessor Bucket::iter inlined"),
     ("R-inline", "bucket . iter ( )", "bucket . nodes . iter ( )", "one-expression accessor Bucket::iter inlined"),
 ]
 
+def _select_rule(toks, log, where):
+    """R-select: tokio::select! { pat = fut [, if cond] => handler, ... }  ->  a nondeterministic choice between the enabled arms.
+    { let vx_sel = vx_select ( ) ; if vx_sel == 0 && ( cond0 ) { let pat0 = fut0 ; handler0 } else if ... else { vx_select_idle ( ( cond0 ) || ... ) ; } }
+    Over-approximation: any enabled arm may complete (or none: a stutter step); select! panics when every arm is disabled,
+    which becomes the precondition of vx_select_idle."""
+    out, i = [], 0
+    while i < len(toks):
+        if toks[i] == "select" and toks[i + 1:i + 3] == ["!", "{"]:
+            close = lex.match_close(toks, i + 2)
+            body = toks[i + 3:close]
+            arms, j = [], 0
+            while j < len(body):
+                def upto(stops, j):
+                    k = j
+                    while k < len(body):
+                        if body[k] in stops:
+                            return k
+                        if body[k] in lex.OPEN:
+                            k = lex.match_close(body, k) + 1
+                            continue
+                        k += 1
+                    return k
+                e = upto(("=",), j)
+                pat = body[j:e]
+                f = upto((",", "=>"), e + 1)
+                fut = body[e + 1:f]
+                cond = ["true"]
+                if body[f] == ",":
+                    if body[f + 1] != "if":
+                        raise ValueError("select arm without handler")
+                    g = upto(("=>",), f + 2)
+                    cond = body[f + 2:g]
+                    f = g
+                h = f + 1
+                if body[h] == "{":
+                    hc = lex.match_close(body, h)
+                    handler = body[h:hc + 1]
+                    j = hc + 1
+                else:
+                    hc = upto((",",), h)
+                    handler = ["{"] + body[h:hc] + [";", "}"]
+                    j = hc
+                if j < len(body) and body[j] == ",":
+                    j += 1
+                arms.append((pat, fut, cond, handler))
+            new = ["{", "let", "vx_sel", "=", "vx_select", "(", ")", ";"]
+            for n, (pat, fut, cond, handler) in enumerate(arms):
+                new += (["else"] if n else []) + ["if", "vx_sel", "==", str(n), "&&", "("] + cond + [")", "{", "let"] + pat + ["="] + fut + [";"] + handler + ["}"]
+            disj = []
+            for n, (pat, fut, cond, handler) in enumerate(arms):
+                disj += (["||"] if n else []) + ["("] + cond + [")"]
+            new += ["else", "{", "vx_select_idle", "("] + disj + [")", ";", "}", "}"]
+            if log is not None:
+                log.append({"rule": "R-select", "where": where, "before": " ".join(toks[i:close + 1])[:400], "after": " ".join(new)[:400],
+                            "note": "select! -> nondeterministic choice between the enabled arms (any enabled arm may complete, or none); 'all arms disabled' (a panic in tokio) is the precondition of vx_select_idle"})
+            out.extend(new)
+            i = close + 1
+        else:
+            out.append(toks[i])
+            i += 1
+    return out
+
+
 # rules only applied when a region asks for them (rules=R-deasync,...)
 OPT_RULES = {
+    "R-select": [_select_rule],
+    "R-mutself": [("R-mutself", "( mut self ,", "( & mut self ,", "`mut self` (unsupported by Verus) read as an exclusive borrow: the body never moves out of self")],
     "R-deasync": [
         ("R-deasync", "async fn", "fn", "async dropped (sequential reading of .await)"),
         ("R-deasync", ". await", "", "await dropped"),
@@ -81,7 +152,11 @@ def apply_rules(toks, extra=(), log=None, where=""):
     rules = list(RULES)
     for name in extra:
         rules = OPT_RULES[name] + rules
-    for name, pat, rep, note in rules:
+    for rule in rules:
+        if callable(rule):
+            toks = rule(toks, log, where)
+            continue
+        name, pat, rep, note = rule
         pat_t, rep_t = pat.split(), rep.split()
         i = 0
         out = []
